@@ -20,7 +20,10 @@
 
   Core Lean only (linked into the driver executable).
 -/
+import RotoV.Generated.C07Facts
+
 namespace RotoV.Unify
+open RotoV.Gen
 
 /-- model of `typechecker::types::Type` -/
 inductive MTy
@@ -76,6 +79,13 @@ def Defs.isSignedInt (d : Defs) (n : Nat) : Bool := match d n with | .int s => s
 def Defs.isFloat (d : Defs) (n : Nat) : Bool := match d n with | .float => true | _ => false
 def Defs.recordFields (d : Defs) (n : Nat) : Option (List (Nat × MTy)) :=
   match d n with | .record fs => some fs | _ => none
+
+/-- a predicate of `TypeDefinition` named by the generated facts -/
+def Defs.eval (d : Defs) (p : C07Facts.Pred) (n : Nat) : Bool :=
+  match p with
+  | .isInt => d.isInt n
+  | .isSignedInt => d.isSignedInt n
+  | .isFloat => d.isFloat n
 
 abbrev Store := List MTy
 
@@ -158,17 +168,18 @@ def unify (d : Defs) : Nat → Store → MTy → MTy → Res MTy
       | .never, x => .ok x s
       | x, .never => .ok x s
       | .intVar a sa, .intVar b sb =>
-        -- unify_intvars: `Yes` has priority over `No`
-        if sa && !sb then .ok (.intVar a sa) (setSlot s b (.intVar a sa))
+        -- unify_intvars: `Yes` has priority over `No` (if the source still says so)
+        if !C07Facts.intVarsYesPriority then .stuck
+        else if sa && !sb then .ok (.intVar a sa) (setSlot s b (.intVar a sa))
         else .ok (.intVar b sb) (setSlot s a (.intVar b sb))
       | .intVar v sg, .name n args | .name n args, .intVar v sg =>
-        if !args.isEmpty then .fail s
-        else if !(if sg then d.isSignedInt n else d.isInt n) then .fail s
+        if C07Facts.intVarRejectsArgs && !args.isEmpty then .fail s
+        else if !(d.eval (if sg then C07Facts.intVarYesPred else C07Facts.intVarNoPred) n) then .fail s
         else .ok (.name n args) (setSlot s v (.name n args))
       | .floatVar a, .floatVar b => .ok (.floatVar b) (setSlot s a (.floatVar b))
       | .floatVar v, .name n args | .name n args, .floatVar v =>
-        if !args.isEmpty then .fail s
-        else if !d.isFloat n then .fail s
+        if C07Facts.floatVarRejectsArgs && !args.isEmpty then .fail s
+        else if !d.eval C07Facts.floatVarPred n then .fail s
         else .ok (.name n args) (setSlot s v (.name n args))
       | .var v, t =>
         if occurs s v (fuel + 1) t then .fail s else .ok t (setSlot s v t)
